@@ -27,11 +27,15 @@ const c18Wait = 15 * time.Second
 type c18SinkSpec struct {
 	V6   bool `json:"v6,omitempty"`
 	Echo bool `json:"echo,omitempty"`
+	// Defer: the sink keeps its replies until a "release" step names it, so that datagrams for other
+	// hosts pass through the relay between a datagram and its reply
+	Defer bool `json:"defer,omitempty"`
 }
 
 type c18NetStep struct {
 	// ip | mapped (IPv4 inside ATYP 4) | domain (injected resolver) | literal (IP text as FQDN) |
-	// unresolvable | empty-domain | stranger (a host the relay never sent to writes to the relay)
+	// unresolvable | empty-domain | stranger (a host the relay never sent to writes to the relay) |
+	// release (sink Dest, a deferring sink, now sends the oldest reply it kept)
 	Form    string `json:"form"`
 	Dest    int    `json:"dest"`
 	Payload string `json:"payload"`
@@ -60,6 +64,9 @@ type c18Sink struct {
 	addr *net.UDPAddr
 	ch   chan c18Got
 	wg   sync.WaitGroup
+
+	mu      sync.Mutex
+	pending []c18Got // Defer: replies not yet sent (payload = the reply, from = where it goes)
 }
 
 func c18HasV6() bool {
@@ -95,6 +102,10 @@ func c18StartSink(idx int, spec c18SinkSpec) (*c18Sink, error) {
 			s.ch <- c18Got{payload: p, from: from}
 			if spec.Echo {
 				conn.WriteToUDP(c18EchoReply(idx, p), from)
+			} else if spec.Defer {
+				s.mu.Lock()
+				s.pending = append(s.pending, c18Got{payload: c18EchoReply(idx, p), from: from})
+				s.mu.Unlock()
 			}
 		}
 	}()
@@ -307,6 +318,7 @@ func c18Assoc(c *core.Ctx, k c18Case) {
 		return true
 	}
 
+	usedForms := map[int]map[string]bool{}
 	for si, st := range nc.Steps {
 		payload := core.UnHex(st.Payload)
 		c.Hist("assoc_form", st.Form)
@@ -333,6 +345,46 @@ func c18Assoc(c *core.Ctx, k c18Case) {
 			want := append([]byte{0, 0, 0, 1, 127, 0, 0, 1, byte(sa.Port >> 8), byte(sa.Port)}, payload...)
 			if !bytes.Equal(got, want) {
 				c.Violate("C18/assoc/reply-header/fresh-host", fmt.Sprintf("step %d: reply from %v came out as %s", si, sa, c18Short(core.Hex(got))), k)
+			}
+			continue
+		}
+		if st.Form == "release" {
+			s := sinks[st.Dest]
+			s.mu.Lock()
+			var rep *c18Got
+			if len(s.pending) > 0 {
+				r := s.pending[0]
+				s.pending = s.pending[1:]
+				rep = &r
+			}
+			s.mu.Unlock()
+			if rep == nil {
+				continue
+			}
+			if _, err := s.conn.WriteToUDP(rep.payload, rep.from); err != nil {
+				c.Note("C18 assoc: deferred reply write failed: %v", err)
+				continue
+			}
+			gotf, err := fr.next()
+			if err != nil {
+				c.Violate("C18/assoc/reply-lost", fmt.Sprintf("step %d: deferred reply of sink %d never reached the tunnel: %v", si, st.Dest, err), k)
+				return
+			}
+			md := c.Model.Ask("assoc-down %s %d %s", c18IPHex(s.addr.IP), s.addr.Port, core.Hex(rep.payload))
+			c.Compared()
+			if md != "ok "+core.Hex(gotf) {
+				c.Disagree("C18/corr/assoc-down", fmt.Sprintf("step %d (deferred): model %s impl %s", si, c18Short(md), c18Short(core.Hex(gotf))), k)
+			}
+			// direct: the reply names the replying host — in a form the client used for it, or as its
+			// literal address — whatever went to other hosts in between
+			ok := bytes.Equal(gotf, append(header(c18NetStep{Form: "ip", Dest: st.Dest}), rep.payload...))
+			for f := range usedForms[st.Dest] {
+				if bytes.Equal(gotf, append(header(c18NetStep{Form: f, Dest: st.Dest}), rep.payload...)) {
+					ok = true
+				}
+			}
+			if !ok {
+				c.Violate("C18/assoc/reply-header/deferred", fmt.Sprintf("step %d: reply of sink %d (%v), sent after datagrams for other hosts, came out as %s", si, st.Dest, s.addr, c18Short(core.Hex(gotf))), k)
 			}
 			continue
 		}
@@ -363,6 +415,10 @@ func c18Assoc(c *core.Ctx, k c18Case) {
 		if wantSink < 0 {
 			continue // nothing must arrive anywhere; checked after the barrier
 		}
+		if usedForms[wantSink] == nil {
+			usedForms[wantSink] = map[string]bool{}
+		}
+		usedForms[wantSink][st.Form] = true
 		s := sinks[wantSink]
 		var got c18Got
 		select {
@@ -628,7 +684,20 @@ func c18NetRun(c *core.Ctx) {
 		nsink := 2 + c.Rand.Intn(3)
 		nc := &c18NetCase{CutsA: c18Cuts(c), CutsB: c18Cuts(c), End: []string{"close", "frag", "short", "rsv"}[c.Rand.Intn(4)]}
 		for j := 0; j < nsink; j++ {
-			nc.Sinks = append(nc.Sinks, c18SinkSpec{V6: hasV6 && c.Rand.Intn(3) == 0, Echo: c.Rand.Intn(2) == 0})
+			spec := c18SinkSpec{V6: hasV6 && c.Rand.Intn(3) == 0, Echo: c.Rand.Intn(2) == 0}
+			spec.Defer = !spec.Echo && c.Rand.Intn(2) == 0
+			nc.Sinks = append(nc.Sinks, spec)
+		}
+		if i == 0 { // always: a reply that arrives after a datagram went to another host
+			nc.Sinks[0] = c18SinkSpec{Defer: true}
+			nc.Sinks[1] = c18SinkSpec{Echo: true}
+			for _, d := range []int{0, 1, 0} {
+				f := "ip"
+				if d == 0 && len(nc.Steps) == 2 {
+					f = "release"
+				}
+				nc.Steps = append(nc.Steps, c18NetStep{Form: f, Dest: d, Payload: core.Hex(c18Content(c, 40+d))})
+			}
 		}
 		for j := 0; j < 6+c.Rand.Intn(c.N(10, 30)); j++ {
 			st := c18NetStep{Dest: c.Rand.Intn(nsink)}
@@ -638,7 +707,10 @@ func c18NetRun(c *core.Ctx) {
 				forms = append(forms, "mapped", "mapped")
 			}
 			st.Form = forms[c.Rand.Intn(len(forms))]
-			p := c18NetPayload(c, spec.Echo)
+			if spec.Defer && c.Rand.Intn(3) == 0 {
+				st.Form = "release"
+			}
+			p := c18NetPayload(c, spec.Echo || spec.Defer)
 			if spec.V6 && len(p) > 65000 {
 				p = p[:1200]
 			}
